@@ -138,6 +138,7 @@ func init() {
 	// families on the components an ALU instruction can touch.
 	checks["C02"] = func(ld *Loaded, r *Run) {
 		r.verifyHelpers(ld, nil)
+		r.checkStdlibModel(ld, "math/bits.OnesCount8", 8)
 		comps := set("A", "F", "B", "C", "D", "E", "H", "L", "IX", "IY", "Mem")
 		r.checkArms(ld, filterEnc(famALU8), func(Encoding) map[string]bool { return comps }, false, false)
 	}
